@@ -1,17 +1,39 @@
 (* C15  Save/load round-trips every object; damaged files never raise.
    Proved about the TXT model (strings = lists of code points): the readers are total and only return well-formed objects - this is the
    'damaged files' clause for EVERY character string, not for sampled faults; numbers survive print/parse; round trips on a bounded family.
+   and the GENERAL TXT round trip (Link/TxtRound.v): for every well-formed multigraph, every sorted list of representable names (name_ok),
+   every integer divisor / firing script and every consistent orientation state, reading what the writer wrote returns the same object -
+   no bound on sizes, multiplicities or chip counts.
    Not modelled in Coq: the dict / JSON layer (Python's json module and the dynamic typing of from_dict) and file I/O - tied by the
-   correspondence run and its exhaustive fault enumeration only (declared partial). The general TXT round-trip theorem under name_ok is not
-   proved; the full statement is kept visible below. *)
+   correspondence run and its exhaustive fault enumeration only (declared partial). *)
 From Coq Require Import ZArith NArith List Bool.
 Import ListNotations.
-From CF Require Import ListAux Core Machines Txt MachinesLink OrientLink TxtLink.
+From CF Require Import ListAux Core Machines Txt MachinesLink OrientLink OrientRound TxtLink TxtLines TxtRound.
 Open Scope Z_scope.
 
 Definition C15_txt_roundtrip_full_statement : Prop :=
   forall names g, wfb g = true -> length names = nv g -> Forall (fun s => name_ok s = true) names -> sort_names names = names ->
     option_map (fun x => (fst x, adj (snd x))) (read_graph (write_graph names g)) = Some (names, g).
+
+Theorem C15_txt_roundtrip_graph : C15_txt_roundtrip_full_statement.
+Proof. intros names g Hwf Hlen Hok Hsort. destruct (read_graph_write_graph names g Hwf Hlen Hok Hsort) as [s [H [_ Ha]]]. rewrite H. cbn. now rewrite Ha. Qed.
+Print Assumptions C15_txt_roundtrip_graph.
+Theorem C15_txt_roundtrip_divisor : forall names g D, wfb g = true -> length names = nv g -> Forall (fun s => name_ok s = true) names -> sort_names names = names ->
+  length D = nv g -> exists s, read_divisor (write_divisor names g D) = Some (names, s, D) /\ ginv s /\ adj s = g.
+Proof. exact read_divisor_write_divisor. Qed.
+Print Assumptions C15_txt_roundtrip_divisor.
+Theorem C15_txt_roundtrip_script : forall names g sc, wfb g = true -> length names = nv g -> Forall (fun s => name_ok s = true) names -> sort_names names = names ->
+  length sc = nv g -> exists s, read_script (write_script names g sc) = Some (names, s, sc) /\ ginv s /\ adj s = g.
+Proof. exact read_script_write_script. Qed.
+Print Assumptions C15_txt_roundtrip_script.
+(* orientation states: consistent (oinv) with directions stored on edges only (oedges) - every state the constructor and any history of
+   set_orientation / check / divisor / reverse calls can reach (C11_history, C11_edges_history) *)
+Theorem C15_txt_roundtrip_orientation : forall names g o, wfb g = true -> length names = nv g -> Forall (fun s => name_ok s = true) names -> sort_names names = names ->
+  oinv g o -> oedges g o ->
+  exists s o', read_orientation (write_orientation names g o) = Some (names, s, o') /\ ginv s /\ adj s = g /\
+    oinv g o' /\ dir o' = dir o /\ inc o' = inc o /\ outc o' = outc o.
+Proof. exact read_orientation_write_orientation. Qed.
+Print Assumptions C15_txt_roundtrip_orientation.
 
 Theorem C15_read_graph_total : forall s, read_graph s = None \/ exists names gs, read_graph s = Some (names, gs) /\ ginv gs /\ gn gs = length names.
 Proof. exact read_graph_total. Qed.
@@ -33,7 +55,7 @@ Theorem C15_number_roundtrip : forall z, py_int (print_Z z) = Some z.
 Proof. exact py_int_print_Z. Qed.
 Print Assumptions C15_number_roundtrip.
 
-(* bounded round trips: three awkward but representable names ("EDGE", "a b", "Ian"), all multigraphs on them with multiplicities <= 2,
+(* non-vacuity and regression examples computed by the kernel: three awkward but representable names ("EDGE", "a b", "Ian"), all multigraphs on them with multiplicities <= 2,
    chip counts from {-12, 0, 2^70}, every orientation of the path, computed by the kernel *)
 Definition nm : list str := [[69;68;71;69]; [73;97;110]; [97;32;98]]%N.
 Definition gs3 : list graph := flat_map (fun a => flat_map (fun b => map (fun c => [[0;a;b];[a;0;c];[b;c;0]]) [0;1;2]) [0;1;2]) [0;1;2].
@@ -56,3 +78,6 @@ Print Assumptions C15_txt_roundtrip_orientation_bounded.
 (* names must satisfy name_ok: an example that cannot be represented (trailing blank is stripped) and one that can *)
 Example C15_name_ok_examples : name_ok [97;32;98]%N = true /\ name_ok [97;32]%N = false /\ name_ok [97;44;98]%N = false /\ name_ok []%N = false /\ name_ok [97;160]%N = false.
 Proof. repeat split; vm_compute; reflexivity. Qed.
+
+Example C15_roundtrip_hypotheses_met : Forall (fun s => name_ok s = true) nm /\ sort_names nm = nm /\ wfb [[0;2;0];[2;0;1];[0;1;0]] = true.
+Proof. split; [repeat constructor|split; vm_compute; reflexivity]. Qed.
